@@ -74,7 +74,7 @@ theorem exBondGauge : ∃ BLn C1 : _,
     (∀ p b, p < exA.d2 → b < 1 → (adjMul exU C1).f p b = ∑ r ∈ range exA.d2, star (exU.f r p) * C1.f r b) ∧
     ∀ x : ℝ, exK.dexp (Complex.I * (x : ℂ)) * exK.dexp (-Complex.I * (x : ℂ)) = 1 := by
   obtain ⟨BLn, hBLn, _⟩ := Env.opStepLeft_ok exA exA exW (ones111 : T3 ℂ) rfl rfl rfl rfl rfl
-  obtain ⟨C1, hC1⟩ := bondStep_ok_one (k := exK) rfl (L := BLn) (R := ones111) exC_pos Complex.I
+  obtain ⟨C1, hC1⟩ := bondStep_ok_one (k := exK) rfl (L := BLn) (R := ones111) sqrtNorm_contract exC_pos Complex.I
   obtain ⟨c0, c1⟩ := bondStep_dims hC1
   refine ⟨BLn, C1, sqrtNorm_contract, exLocal_fits, exLocal_herm, rfl, rfl, ?_, ?_, hBLn, rfl, rfl, eighAt_one _ _ _,
     hC1, rfl, c1, fun p b _ _ => rfl, fun _ => by simp [exK]⟩
